@@ -277,6 +277,14 @@ def w_pca_object(ctx, rng, i):
     n = int(rng.integers(6, 25))
     X = pca_data(rng, n, k * dd, "plain")
     shapes = [ms.PointCloud(r.reshape(k, dd)) for r in X]
+    mixed = bool(rng.random() < 0.3)
+    if mixed:
+        # some annotations were stored as integer pixel positions (integer-typed point clouds) among floating point ones: the
+        # data set is what its samples say, however it is cut into increments
+        # (not the very first sample: a constructor chunk of integer samples only is refused loudly - in-place centring)
+        for j in 1 + rng.choice(n - 1, int(rng.integers(1, 4)), replace=False):
+            X[j] = np.round(X[j])
+            shapes[j] = ms.PointCloud(X[j].reshape(k, dd).astype(np.int64))
     first = int(rng.integers(2, n - 1))
     step = int(rng.integers(1, 5))
     stream = bool(rng.random() < 0.5)
@@ -311,7 +319,7 @@ def w_pca_object(ctx, rng, i):
             ctx.fail("object_backed_incremental_differs_from_batch", cls="PCAModel", mech="eigenvalues")
         if _amax(m._components.T @ m._components - b._components.T @ b._components) > 1e-6:
             ctx.fail("object_backed_incremental_differs_from_batch", cls="PCAModel", mech="subspace")
-    ctx.count_case(("pca_object", first, step, stream), nontrivial=True)
+    ctx.count_case(("pca_object", first, step, stream, mixed), nontrivial=True)
 
 
 def cond_tol(X):
